@@ -379,6 +379,14 @@ func runC14(c *Check) {
 					})
 				}
 			}
+			// … or with the module's list filter: filterOut(active, matches)
+			for _, a := range cands.Alts() {
+				if p.IsCall(a, "app.filterOut") && len(a.Args) == 2 && p.IsCall(a.Args[1], "util.SelectNodes") {
+					k++
+					c.Hold(p.Name(cli), p.InstrPos(a.In), nthKey("cli:candidate", k)+":outside-match", "the candidates are the active nodes minus those matching the 'from' pattern (list filter)")
+					checkFilterOutBody(c)
+				}
+			}
 			c.Req(k >= 1, p.Name(cli), "-", "cli:candidates", "the CLI builds its candidate list by append", "")
 		}
 	})
@@ -409,11 +417,19 @@ func runC14(c *Check) {
 					return false
 				}
 				b := t.Args[0]
-				return (b.Op == "indexaddr" || b.Op == "index") && b.Args[0].Op == "param" && !b.Args[1].IsConst("0")
+				if b.Op != "indexaddr" && b.Op != "index" {
+					return false
+				}
+				// positions[i] (i ≠ 0), or an element of positions[k:] (`for _, pos := range positions[1:]`)
+				if b.Args[0].Op == "param" {
+					return !b.Args[1].IsConst("0")
+				}
+				return b.Args[0].Op == "slice" && len(b.Args[0].Args) > 0 && b.Args[0].Args[0].Op == "param"
 			}
 		}
 		higher := CmpLit("<", isMax("priority"), isElem("priority"))
 		same := CmpLit("==", isMax("priority"), isElem("priority"))
+		notLower := CmpLit("<=", isMax("priority"), isElem("priority")) // ¬(candidate < maximum)
 		equalSets := func(val bool) LitPat {
 			return func(l Lit) bool {
 				if l.Pos != val || !p.IsCall(l.T, gtidEqual) {
@@ -440,7 +456,7 @@ func runC14(c *Check) {
 				}
 				n++
 				k := nthKey("replace", n)
-				c.Gate(hfa, st, k+":priority", "the maximum is replaced only on higher or equal priority", higher, same)
+				c.Gate(hfa, st, k+":priority", "the maximum is replaced only on higher or equal priority", higher, same, notLower)
 				c.Gate(hfa, st, k+":more-transactions", "on equal priority: equal sets, or the candidate's set contains the maximum's", higher, equalSets(true), contains)
 				c.Gate(hfa, st, k+":less-lag", "on equal priority and equal sets: strictly less lag", higher, equalSets(false), lessLag)
 			}
@@ -553,4 +569,33 @@ func containerParam(t *Term) string {
 		}
 	}
 	return ""
+}
+
+// checkFilterOutBody: filterOut(a, b) keeps an element of a only if b does not contain it.
+func checkFilterOutBody(c *Check) {
+	p := c.p
+	f := p.MustFunc("app.filterOut")
+	fa := p.FA(f)
+	k := 0
+	for _, b := range f.Blocks {
+		for _, in := range b.Instrs {
+			call, ok := in.(*ssa.Call)
+			if !ok {
+				continue
+			}
+			if bi, ok := call.Call.Value.(*ssa.Builtin); !ok || bi.Name() != "append" {
+				continue
+			}
+			k++
+			el := c.eff.variadic(call.Call.Args[1])
+			okel := len(el) == 1 && elementOfParam(p.T(el[0]), "0")
+			c.Req(okel, p.Name(f), p.InstrPos(call), nthKey("listfilter:append", k)+":element", "the list filter appends elements of its first argument", "")
+			if okel {
+				c.Gate(fa, call, nthKey("listfilter:append", k)+":absent", "the list filter keeps an element only if the second list does not contain it", func(l Lit) bool {
+					return !l.Pos && p.IsCall(l.T, "slices.Contains") && l.T.Args[0].Op == "param" && l.T.Args[0].Name == "1" && l.T.Args[1].V == el[0]
+				})
+			}
+		}
+	}
+	c.Req(k >= 1, p.Name(f), "-", "listfilter:has-append", "the list filter builds its result by append", "")
 }
